@@ -894,6 +894,9 @@ class Interp:
             if (lo is None or isinstance(lo, int)) and (hi is None or isinstance(hi, int)):
                 return obj[lo:hi]
             raise OutOfReach("symbolic slice of a list/tuple/str")
+        if isinstance(obj, SStr):
+            f = z3.Function("SUBSTR", Str, z3.IntSort(), z3.IntSort(), Str)  # opaque: s[lo:hi] (None encoded as -2**62 / 2**62)
+            return SStr(f(obj.term, Z(-(2**62) if lo is None else lo), Z(2**62 if hi is None else hi)))
         raise OutOfReach(f"slice of {type(obj).__name__}")
 
     def getitem(self, obj, idx):
